@@ -296,6 +296,8 @@ def gen_cmp(ctx, now, fn=None):
         if TD_MIN_US <= w <= TD_MAX_US:
             u = now - w - delta if fn == 'older' else now + w + delta
             tag = 'boundary%+d' % delta if abs(delta) <= 1 else 'off-boundary'
+            if abs(delta) <= 1 and w != (sec_frac(sec) * 10 ** 6).__floor__():
+                ctx.count('cmp/boundary-with-seconds-rounded-up-by-timedelta')
         else:
             u, tag = gen_instant(rng), 'seconds-beyond-timedelta'
         if not in_range(u):
@@ -749,7 +751,7 @@ def is_nontrivial(case, impl):
 
 
 def correspondence(ctx):
-    n = 6000 if ctx.quick else 60000
+    n = 20000 if ctx.quick else 200000
     cases = corpus()
     ncorpus = len(cases)
     while len(cases) < n + ncorpus:
@@ -978,6 +980,23 @@ def oracle(case):
             'marshall': oracle_marshall, 'unmarshall': oracle_unmarshall}[k](case)
 
 
+def spec_clocks(case):
+    """the clock the property prescribes before each call (integer arithmetic only)"""
+    clock, out = case['init'], []
+    for op in case['ops']:
+        out.append(clock)
+        k = op[0]
+        if k == 'set':
+            clock = op[1]
+        elif k == 'clear':
+            clock = None
+        elif k in ('advd', 'advs') and clock is not None:
+            d = op[1] if k == 'advd' else td_of(op[1])
+            if d is not None and in_range(clock + d):
+                clock += d
+    return out
+
+
 def shrink(case):
     if case['kind'] != 'seq' or len(case['ops']) < 2:
         return case
@@ -985,6 +1004,12 @@ def shrink(case):
     def still(sub):
         return oracle(dict(case, ops=sub)) is not None
     small = dict(case, ops=common.shrink_list(case['ops'], still))
+    clocks = spec_clocks(small)
+    for i in range(len(small['ops']) - 1, 0, -1):       # fold the prefix into the initial override
+        cand = dict(small, init=clocks[i], ops=small['ops'][i:])
+        if oracle(cand) is not None:
+            small = cand
+            break
     if small.get('fixture') and oracle(dict(small, fixture=False)) is not None:
         small['fixture'] = False
     return small
@@ -994,7 +1019,7 @@ def search(ctx, seeds, full=False):
     rng = ctx.rng
     fails, kinds = [], set()
     todo = list(seeds[:300]) + corpus()
-    n = (40000 if full else 5000) if ctx.quick else (300000 if full else 50000)
+    n = (60000 if full else 15000) if ctx.quick else (400000 if full else 150000)
     for i in range(n):
         if i % 8 == 7:
             u = gen_instant(rng)
